@@ -1060,6 +1060,10 @@ func lemmaStableMediaType(s string) (m MediaType, m2 MediaType, accepted bool, o
 //@ spec fn textOK_URI(u *URI) bool = uninterpreted
 //@ spec fn textOf_URI(u *URI) string = uninterpreted
 //@ spec fn parsed_URI(u *URI) bool = uninterpreted
+// jsonValid(s): s is a JSON text in the form json.Marshal produces (valid, no
+// insignificant whitespace, HTML-escaped). Only such texts travel byte for byte
+// inside a *json.RawMessage field (encoding/json re-compacts and re-escapes);
+// every RawMessage the package encodes comes from json.Marshal.
 //@ spec fn jsonValid(s string) bool = uninterpreted
 //@ spec fn seq_SessionEncryption(s []SessionEncryption) int = uninterpreted
 //@ spec fn seq_SessionCompression(s []SessionCompression) int = uninterpreted
